@@ -15,6 +15,7 @@ structure CS where
   batBefore : String := ""
   batBeforeFailed : Bool := false
   batPremut : String := ""
+  batState : String := ""
 
 def mism (c : CS) (msg : String) : CS :=
   { c with rep := { c.rep with mismatches := c.rep.mismatches ++ [s!"line {c.line}: {msg}"] } }
@@ -98,13 +99,23 @@ def step (c : CS) (l : Line) : CS :=
         let c := { c with rep := { c.rep with events := c.rep.events + 1 } }
         if !c.batBeforeFailed && c.batBefore ≠ "" && c.batBefore ≠ l.str "sha" then
           mism c s!"SPEC[resume-battery] the resumed TPM answers the read-only battery differently: before {c.batBefore} after {l.str "sha"}" else c
+      else if ph = "sbefore" then { c with batState := l.str "sha", batBeforeFailed := c.st.failed }
+      else if ph = "safter" then
+        let c := { c with rep := { c.rep with events := c.rep.events + 1 } }
+        if !c.batBeforeFailed && c.batState ≠ "" && c.batState ≠ l.str "sha" then
+          mism c s!"SPEC[savestate-battery] after TPM_SaveState / power cycle / TPM_Startup(ST_STATE) the TPM answers the read-only battery (PCR 0-15, flags, NV, counters, handle lists) differently: before {c.batState} after {l.str "sha"}" else c
       else if ph = "postmut" then
         let c := { c with rep := { c.rep with events := c.rep.events + 1 } }
         if !c.batBeforeFailed && c.batPremut ≠ "" && c.batPremut ≠ l.str "sha" then
           mism c s!"SPEC[mutation-aftermath] after the rejected blobs the TPM answers the battery differently: before {c.batPremut} after {l.str "sha"}" else c
       else c
+  | "holes" => branch { c with rep := { c.rep with events := c.rep.events + 1 } } s!"holes/{l.str "kind"}/open={l.nat "open"}/victim={l.nat "victim"}"
+  | "ststate" =>
+      let c := branch c s!"startup-state/rc={rcClass (l.nat "rc")}"
+      if l.nat "rc" ≠ 0 && !c.st.failed then
+        mism c s!"SPEC[savestate-rejected] TPM_Startup(ST_STATE) refused the state TPM_SaveState had just stored: rc {l.nat "rc"}" else c
   | "resume" =>
-      let c := branch c s!"resume/storage={l.nat "storage"}/eqvol={l.nat "eqvol"}/eqsave={l.nat "eqsave"}/failedbefore={c.st.failed}"
+      let c := branch c s!"resume/storage={l.nat "storage"}/eqvol={l.nat "eqvol"}/eqsave={l.nat "eqsave"}/failedbefore={c.st.failed}/second={l.nat "second"}"
       let c := if !allZero (l.str "get") then mism c s!"SPEC[resume-rejected] GetState failed: {l.str "get"}" else c
       let c := if !allZero (l.str "set") || l.nat "maininit" ≠ 0 then
                  mism c s!"SPEC[resume-rejected] the TPM's own blobs were refused: SetState {l.str "set"} MainInit {l.nat "maininit"}" else c
